@@ -1,0 +1,99 @@
+"""
+Verification hook (inert unless the environment variable WHATSHAP_VERIF_TRACE is set).
+
+When WHATSHAP_VERIF_TRACE names a file, `whatshap phase` appends one JSON line per
+(chromosome, family) describing the exact instance handed to the phasing algorithm and
+the solution it returned. Nothing in here influences the phasing result.
+"""
+import json
+import os
+
+GUARD = "WHATSHAP_VERIF_TRACE"
+
+
+def enabled() -> bool:
+    return bool(os.environ.get(GUARD))
+
+
+def _readset(readset):
+    return [
+        {
+            "name": read.name,
+            "source_id": read.source_id,
+            "sample_id": read.sample_id,
+            "mapq": list(read.mapqs),
+            "variants": [[v.position, v.allele, v.quality] for v in read],
+        }
+        for read in readset
+    ]
+
+
+def trace_phase_instance(
+    chromosome,
+    family,
+    trios,
+    numeric_sample_ids,
+    readsets,
+    all_reads,
+    accessible_positions,
+    homozygous_positions,
+    phasable_variant_table,
+    distrust_genotypes,
+    recombination_costs,
+    dp_table,
+    superreads_list,
+    transmission_vector,
+    overall_components,
+    max_coverage_per_sample,
+    algorithm,
+):
+    path = os.environ.get(GUARD)
+    if not path:
+        return
+    genotypes = {}
+    likelihoods = {}
+    for sample in family:
+        genotypes[sample] = [
+            (None if gt.is_none() else gt.as_vector())
+            for gt in phasable_variant_table.genotypes_of(sample)
+        ]
+        if distrust_genotypes:
+            likelihoods[sample] = [
+                (None if gl is None else [gl.log10_prob_of(i) for i in range(3)])
+                for gl in phasable_variant_table.genotype_likelihoods_of(sample)
+            ]
+    try:
+        cost = dp_table.get_optimal_cost()
+    except Exception:
+        cost = None
+    try:
+        partition = list(dp_table.get_optimal_partitioning())
+    except Exception:
+        partition = None
+    record = {
+        "chromosome": chromosome,
+        "family": list(family),
+        "trios": [[t.child, t.father, t.mother] for t in trios],
+        "sample_ids": {sample: numeric_sample_ids[sample] for sample in family},
+        "algorithm": algorithm,
+        "max_coverage_per_sample": max_coverage_per_sample,
+        "selected_reads_per_sample": {s: _readset(rs) for s, rs in readsets.items()},
+        "reads": _readset(all_reads),
+        "accessible_positions": list(accessible_positions),
+        "homozygous_positions": sorted(homozygous_positions),
+        "variant_positions": [v.position for v in phasable_variant_table.variants],
+        "genotypes": genotypes,
+        "likelihoods": likelihoods,
+        "distrust_genotypes": bool(distrust_genotypes),
+        "recombination_costs": list(recombination_costs),
+        "cost": cost,
+        "partition": partition,
+        "transmission_vector": None if transmission_vector is None else list(transmission_vector),
+        "superreads": [
+            [[[v.position, v.allele, v.quality] for v in sr] for sr in sample_superreads]
+            for sample_superreads in superreads_list
+        ],
+        "components": sorted([p, c] for p, c in overall_components.items()),
+    }
+    with open(path, "a") as f:
+        f.write(json.dumps(record) + "\n")
